@@ -1,0 +1,46 @@
+//go:build verif
+
+/*
+ * Licensed to the Apache Software Foundation (ASF) under one or more
+ * contributor license agreements.  See the NOTICE file distributed with
+ * this work for additional information regarding copyright ownership.
+ * The ASF licenses this file to You under the Apache License, Version 2.0
+ * (the "License"); you may not use this file except in compliance with
+ * the License.  You may obtain a copy of the License at
+ *
+ *     http://www.apache.org/licenses/LICENSE-2.0
+ *
+ * Unless required by applicable law or agreed to in writing, software
+ * distributed under the License is distributed on an "AS IS" BASIS,
+ * WITHOUT WARRANTIES OR CONDITIONS OF ANY KIND, either express or implied.
+ * See the License for the specific language governing permissions and
+ * limitations under the License.
+ */
+
+package getty
+
+import "sync/atomic"
+
+// VerifPendingFutures returns the number of entries in the pending-future
+// table of the remoting client (builds tagged "verif" only).
+func VerifPendingFutures() int {
+	n := 0
+	GetGettyRemotingClient().gettyRemoting.futures.Range(func(_, _ interface{}) bool {
+		n++
+		return true
+	})
+	return n
+}
+
+// VerifSessionCount returns the number of registered sessions and the value
+// of the session counter (builds tagged "verif" only).
+func VerifSessionCount() (registered int, counter int32) {
+	if sessionManager == nil {
+		return 0, 0
+	}
+	sessionManager.allSessions.Range(func(_, _ interface{}) bool {
+		registered++
+		return true
+	})
+	return registered, atomic.LoadInt32(&sessionManager.sessionSize)
+}
